@@ -282,7 +282,12 @@ def worker(case: Dict[str, Any]) -> CaseResult:
             files = partition(defs, rng)
             import shutil
             shutil.rmtree(root / "schema_dir", ignore_errors=True)
-            g, c = generate(root, "pkg_dir%d" % k, cfg_full, None, queries, schema_files=files)
+            # the same directory, named the ways a configuration names directories: plainly, with a leading ./, through a parent (`..` is a path component that begins
+            # with a dot, and so does a hidden ancestor), absolutely
+            (root / "sub").mkdir(exist_ok=True)
+            (root / ".ws" / "proj").mkdir(parents=True, exist_ok=True)
+            ref = ["schema_dir", "./schema_dir", "sub/../schema_dir", ".ws/proj/../../schema_dir", str(root / "schema_dir")][(case["idx"] + k) % 5]
+            g, c = generate(root, "pkg_dir%d" % k, dict(cfg_full, schema_path=ref), None, queries, schema_files=files)
             variants.append(("directory-partition", g, c))
             count("partitions")
         rec = PostRecorder(schema_ref)
